@@ -26,6 +26,9 @@
     D5 "dump(sort=True) ... returns sorted Index (alphabetic order for keys)";
        "If sort == False (default case), returns __str__ result"; "If you
         print an Index, it looks like a standard dictionary"   -> dk/dv/dp
+    D7 filter_by(include=...): "metadata keys required in the content items"
+        (only used as the source of a second Browser for merge: the items
+        that carry the key, renumbered)                     -> "sub"
     D6 module doc of Browser: "'quantity' in com_br  False" AFTER
         filter_by(quantity=5); "if the key doesn't exist an 'empty generator'
         is emitted" (available_values); "keys(): the available keys in the
@@ -34,6 +37,13 @@
         is not there answers "nothing" and does not change what any later
         question answers (Mapping protocol: __getitem__ is a read).
                                   -> Lookup leaves ixs unchanged (ReadOnly)
+   The class has no strip(), __setitem__ or __delitem__ of its own (it is a
+   Mapping): `strip` is keep_only of all the ids (D3, "stripped from useless
+   keys"); deletions and index[k][v].add(i) go through the public attribute
+   `.index`, the write path of the class docstring
+   (myindex.index['drink']['beer'] = {1, 4}).  They are in the model to reach
+   indexes that hold empty sets / keys without values, and to show that the
+   indexes of a session share nothing (Immutable).
 
    Item ids are 0-based as in Python: item n of the sequence has id n - 1.
    A session is a list `ixs` of indexes (the one built from the items first;
@@ -48,7 +58,7 @@ CONSTANTS Keys,      \* metadata keys that items may carry
           MaxMerged, \* bound on the items of a merged browser
           D0, D1, D2, D3, \* operations after the build for a base list of 0, 1, 2, 3 items
           MaxIx,     \* bound on the number of indexes of a session
-          OpKinds,   \* subset of {"keep","strip","lookup","delkey","delval","add","merge","dump"}
+          OpKinds,   \* subset of {"keep","strip","lookup","delkey","delval","add","merge","sub","dump"}
           HitLookups,\* TRUE: look-ups of present key/value pairs are enumerated too
           Variant    \* "doc" = as documented; anything else = deliberately wrong model (negative self-test)
 
@@ -159,6 +169,7 @@ Apply(ix, o) ==
                            ELSE ix
      [] o.op = "merge"  -> IF o.i \in DOMAIN ix /\ e.br /\ ix[o.i].br
                            THEN Append(ix, Built(e.items \o ix[o.i].items)) ELSE ix
+     [] o.op = "sub"    -> IF e.br THEN Append(ix, Built(SelectSeq(e.items, LAMBDA m : o.k \in DOMAIN m))) ELSE ix
      [] OTHER           -> ix                   \* "lookup", "dump": questions
 
 (* the answers of a look-up: the values under k (key only, v = "") / the ids under k, v *)
@@ -213,9 +224,11 @@ DoAdd    == Budget("add") /\ \E s \in DOMAIN ixs, k \in Keys, v \in Vals : \E i 
 DoMerge  == Budget("merge") /\ Room /\ \E s \in DOMAIN ixs, t \in DOMAIN ixs :
                /\ ixs[s].br /\ ixs[t].br /\ Len(ixs[s].items) + Len(ixs[t].items) <= MaxMerged
                /\ Step(O("merge", s, "", "", {}, t))
+(* a second, different Browser to merge with: filter_by(include=(k,)), the items that carry key k, renumbered *)
+DoSub    == Budget("sub") /\ Room /\ \E s \in DOMAIN ixs, k \in Keys : ixs[s].br /\ Step(O("sub", s, k, "", {}, 0))
 DoDump   == Budget("dump") /\ \E s \in DOMAIN ixs : Step(O("dump", s, "", "", {}, 0))
 
-Next == Build \/ DoKeep \/ DoStrip \/ DoLookup \/ DoDelKey \/ DoDelVal \/ DoAdd \/ DoMerge \/ DoDump
+Next == Build \/ DoKeep \/ DoStrip \/ DoLookup \/ DoDelKey \/ DoDelVal \/ DoAdd \/ DoMerge \/ DoSub \/ DoDump
 Spec == Init /\ [][Next]_vars
 
 -----------------------------------------------------------------------------
@@ -235,15 +248,21 @@ BuildIsAbs == \A n \in DOMAIN ixs : ixs[n].br => ixs[n].rep = Abs(ixs[n].items, 
 
 (* keep_only(S) = restriction of every set to S and nothing else.  (K is a table so that TLC evaluates every
    keep_only once.) *)
+(* The laws are checked on the index that the last operation created or edited: every index of a session was in that
+   position in the state where it got its present value, so every reachable index is checked once, not once per state. *)
+Touched == IF hist = <<>> THEN {}
+           ELSE LET h == hist[Len(hist)] IN
+                IF h.op \in {"lookup", "dump"} THEN {}
+                ELSE IF h.op \in {"delkey", "delval", "add"} THEN {h.src} ELSE {Len(ixs)}
 KeepTable(e) == [S \in SUBSET AllIds(e) |-> KeepRep(e.rep, S)]
-KeepExact == \A n \in DOMAIN ixs :
+KeepExact == \A n \in Touched :
                 LET e == ixs[n]  K == KeepTable(e) IN
                 \A S \in DOMAIN K :
                    /\ NoEmpty(K[S])
                    /\ DOMAIN K[S] \subseteq DOMAIN e.rep /\ \A k \in DOMAIN K[S] : DOMAIN K[S][k] \subseteq DOMAIN e.rep[k]
                    /\ \A k \in QKeys, v \in QVals : Get2(K[S], k, v) = Get2(e.rep, k, v) \cap S
                    /\ K[S] = Abs(e.items, e.live \cap S)
-KeepLaws == \A n \in DOMAIN ixs :
+KeepLaws == \A n \in Touched :
                LET e == ixs[n]  K == KeepTable(e) IN
                /\ \A S, T \in DOMAIN K :
                      /\ KeepRep(K[S], T) = K[S \cap T]                 \* composes by intersection, hence idempotent (T = S)
@@ -252,8 +271,8 @@ KeepLaws == \A n \in DOMAIN ixs :
                /\ K[AllIds(e)] = StripRep(e.rep)                      \* strip = keep everything
 
 (* the queries are those of a direct scan of the items *)
-ObsExact == \A n \in DOMAIN ixs : ixs[n].clean =>
-               LET e == ixs[n]  obs == ObsAll(ixs) IN
+ObsExact == \A n \in Touched : ixs[n].clean =>
+               LET e == ixs[n]  obs == [m \in {n} |-> ObsOf(e)] IN
                /\ obs[n].keys = {k \in Keys : \E i \in e.live : k \in DOMAIN e.items[i + 1]}
                /\ \A k \in XKeys : ~obs[n].has[k] /\ obs[n].vals[k] = {}
                /\ \A k \in Keys : obs[n].vals[k] = {e.items[i + 1][k] : i \in {j \in e.live : k \in DOMAIN e.items[j + 1]}}
@@ -266,7 +285,7 @@ Last == hist'[Len(hist')]
 ReadOnly  == [][Last.op \in {"lookup", "dump"} => ixs' = ixs]_vars
 Immutable == [][/\ Len(ixs') >= Len(ixs)
                 /\ \A n \in DOMAIN ixs : ixs'[n] = ixs[n] \/ (Last.op \in {"delkey", "delval", "add"} /\ Last.src = n)
-                /\ Last.op \in {"keep", "strip"} => Len(ixs') = Len(ixs) + 1]_vars
+                /\ Last.op \in {"keep", "strip", "sub"} => Len(ixs') = Len(ixs) + 1]_vars
 
 -----------------------------------------------------------------------------
 (* witnesses (negated reachability): TLC must find each of them violated *)
@@ -280,5 +299,20 @@ W_MissingVal   == ~(\E h \in DOMAIN hist : hist[h].op = "lookup" /\ hist[h].v # 
                                            /\ hist[h].v \notin DOMAIN ixs[hist[h].src].rep[hist[h].k])
 W_EmptyKey     == ~(\E n \in DOMAIN ixs : \E k \in DOMAIN ixs[n].rep : DOMAIN ixs[n].rep[k] = {})
 W_StripBites   == ~(\E h \in DOMAIN hist : hist[h].op = "strip" /\ ixs[Len(ixs)].rep # ixs[hist[h].src].rep)
+W_MergeOrder   == ~(\E h \in DOMAIN hist : hist[h].op = "merge" /\ hist[h].src # hist[h].i
+                                           /\ ixs[hist[h].src].items \o ixs[hist[h].i].items # ixs[hist[h].i].items \o ixs[hist[h].src].items)
 W_SharedValue  == ~(\E n \in DOMAIN ixs : \E k \in DOMAIN ixs[n].rep : \E v \in DOMAIN ixs[n].rep[k] : Cardinality(ixs[n].rep[k][v]) >= 2)
+
+(* all the witnesses in one run (single worker): WProbe is an invariant that is always true and collects the names of
+   the witnesses whose situation TLC has reached; WPost prints them *)
+Reached == {w \in {"W_KeepProper", "W_KeepDropsKey", "W_KeepOfKeep", "W_MissingKey", "W_MissingVal", "W_EmptyKey",
+                   "W_StripBites", "W_SharedValue", "W_MergeOrder"} :
+              CASE w = "W_KeepProper" -> ~W_KeepProper [] w = "W_KeepDropsKey" -> ~W_KeepDropsKey
+                [] w = "W_KeepOfKeep" -> ~W_KeepOfKeep [] w = "W_MissingKey" -> ~W_MissingKey
+                [] w = "W_MissingVal" -> ~W_MissingVal [] w = "W_EmptyKey" -> ~W_EmptyKey
+                [] w = "W_StripBites" -> ~W_StripBites [] w = "W_SharedValue" -> ~W_SharedValue
+                [] w = "W_MergeOrder" -> ~W_MergeOrder}
+WSpec  == (Init /\ TLCSet(77, {})) /\ [][Next]_vars
+WProbe == Reached = {} \/ TLCSet(77, TLCGet(77) \cup Reached)
+WPost  == PrintT(<<"WITNESSED", TLCGet(77)>>)
 =============================================================================
